@@ -17,7 +17,8 @@ theorem C15_offsets (pre : Bytes) (es : List EntryParts) :
     (genIdx pre.length es).length = 5 * es.length ∧
     ∀ ko ∈ genIdx pre.length es, ∃ m, markerOfKind ko.1 = some m ∧
       ((genEcc pre es).drop ko.2).take m.length = m := by
-  sorry
+  obtain ⟨h1, h2⟩ := B.offsets pre es
+  exact ⟨h1, h2⟩
 
 /-- the 9 marker-info bytes of a record: kind digit, 8-byte big-endian offset -/
 def recBytes (kind pos : Nat) : Bytes :=
@@ -40,7 +41,11 @@ theorem C15_recover (O : Ops) (nIdx kIdx : Nat) (pre : Bytes) (es : List EntryPa
     (hrecs : (chunks nIdx idx.length idx).map (decodeRecord O kIdx) =
         (genIdx pre.length es).map (fun ko => some (recBytes ko.1 ko.2))) :
     recoverIdx O nIdx kIdx idx file' = some (genEcc pre es) := by
-  sorry
+  have _ := hk; have _ := hn
+  obtain ⟨hlen, hag⟩ := hagree
+  rw [recoverIdx_eq, foldl_step_eq, filterMap_of_map_eq _ (fun ko : Nat × Nat => recBytes ko.1 ko.2) _ _ hrecs]
+  exact fold_recover (genEcc pre es) hsmall (genIdx pre.length es) file'
+    (B.offsets pre es).2 hlen hag
 
 /-- An index block damaged beyond repair (or truncated) is skipped without stopping the recovery
 of the others: the result is that of the usable blocks alone. -/
@@ -48,7 +53,7 @@ theorem C15_skip (O : Ops) (nIdx kIdx : Nat) (idx file : Bytes) :
     recoverIdx O nIdx kIdx idx file =
       ((chunks nIdx idx.length idx).filterMap (decodeRecord O kIdx)).foldl
         (fun acc r => acc.bind (fun f => applyRecord f r)) (some file) := by
-  sorry
+  rw [recoverIdx_eq, foldl_step_eq]
 
 /-- A block whose check fails and that the decoder cannot repair (exception, or re-check fails) is
 unusable, whatever its bytes. -/
@@ -57,10 +62,10 @@ theorem C15_unusable (O : Ops) (kIdx : Nat) (block : Bytes)
     (hdec : O.dec kIdx (block.take kIdx) (block.drop kIdx) = none ∨
             ∃ m e, O.dec kIdx (block.take kIdx) (block.drop kIdx) = some (m, e) ∧ O.chk kIdx m e = false) :
     decodeRecord O kIdx block = none := by
-  sorry
+  exact unusable O kIdx block hchk hdec
 
 /-- Non-vacuity: a record decodes its own bytes. -/
 example : beNat ((recBytes 2 70000).drop 1) = 70000 ∧ (recBytes 2 70000).head? = some 50 := by
-  sorry
+  decide
 
 end Pff.Entry
